@@ -61,7 +61,10 @@ RULE = ('Position: for each known protocol version (iterated from '
         'types/utility, minecraft/utility and ConnectionContext a '
         'scheduling point, all schedules with <= 2 (thorough 3) '
         'preemptions: the racing call shows one of the two layouts and '
-        'afterwards the context shows the new version and its layout.')
+        'afterwards the context shows the new version and its layout; and '
+        'two connections (the two versions of each pair) encode two '
+        'positions at the same time into a copying and into a retaining '
+        'transport: each carries its own word.')
 ASSUMPTIONS = ['publication rank is taken from minecraft.PROTOCOL_VERSION_'
                'INDICES of the tree under test (checked to be a bijection on '
                'KNOWN_PROTOCOL_VERSIONS containing 404, 443, 477, 741, 748)',
@@ -904,6 +907,8 @@ def race_body(W, params):
         return 'A' if same_ints(p, PROBE) else 'B'
 
     ops = {'encode': encode, 'decode': decode}
+    if params['op'] == 'encode||encode':
+        return race_two_encoders(W, E, v, w)
     got = interleave.race(W, [assign, ops[params['op']]])
     viol = []
     i = 0 if params['op'] == 'encode' else 1
@@ -927,6 +932,53 @@ def race_body(W, params):
     return {'outcome': (got[1], after), 'violations': viol}
 
 
+class _Retain(object):
+    """A transport that keeps what it is handed and looks at it later (a
+    socket is free to do so until send() returns - and a wrapper may)."""
+    def __init__(self):
+        self.parts = []
+
+    def send(self, data):
+        self.parts.append(data)
+
+    def value(self):
+        return b''.join(bytes(p) for p in self.parts)
+
+
+P2 = (-0x1F0F0F1, -0x2A5, 0x1234567)
+
+
+def race_two_encoders(W, E, v, w):
+    """Two connections of one process (protocols v and w) encode a position
+    each at the same time, into a copying and into a retaining transport."""
+    cxs = (E.Context(protocol_version=v), E.Context(protocol_version=w))
+    pos = (PROBE, P2)
+    want = []
+    for cx, p in zip(cxs, pos):
+        buf = E.PacketBuffer()
+        E.Position.send_with_context(p, buf, cx)
+        want.append(buf.get_writable())
+    viol = []
+    for kind in ('copying', 'retaining'):
+        sinks = [E.PacketBuffer() if kind == 'copying' else _Retain()
+                 for _ in cxs]
+
+        def enc(i):
+            E.Position.send_with_context(pos[i], sinks[i], cxs[i])
+        got = interleave.race(W, [lambda: enc(0), lambda: enc(1)])
+        for i in (0, 1):
+            data = sinks[i].get_writable() if kind == 'copying' \
+                else sinks[i].value()
+            if got[i] != ('ok', None) or data != want[i]:
+                viol.append(('two encoders, %s transport' % kind,
+                             'protocols %d and %d encode %r and %r at the '
+                             'same time into a %s transport: connection %d '
+                             'carries %s (%r), expected %s'
+                             % (v, w, pos[0], pos[1], kind, i + 1,
+                                data.hex(), got[i], want[i].hex())))
+    return {'outcome': 'two encoders', 'violations': viol}
+
+
 def race_factory(params):
     def scenario(prefix, expect, visited=None, budget=0):
         return interleave.run(lambda W: race_body(W, params), prefix, expect,
@@ -939,7 +991,8 @@ def run_races(ctx, ex):
     execs = 0
     for v, w in RACE_PAIRS:
         for op, warm in (('encode', False), ('encode', True),
-                         ('decode', False), ('decode', True)):
+                         ('decode', False), ('decode', True),
+                         ('encode||encode', False)):
             res = ex.explore(ctx, race_factory,
                              {'from': v, 'to': w, 'op': op, 'warm': warm},
                              bound, label='race ')
